@@ -16,6 +16,7 @@ LEVEL = "exploration"
 CONTRACTS = True  # icontract postconditions on AlignedStream.read/peek/seek fire during this workload too
 STEP_BUDGET = 3_000_000  # line events per case; a case that exceeds it is reported as non-termination
 HANDLE_CLOSE_CHECK = True
+OPEN_INTERPOSE = True  # files the library opens by path (parents, extents, bundle images) are wrapped in observing proxies
 ANCHOR_FILES = ["dissect/hypervisor/disk/hdd.py"]
 RULE = (
     "HDS images written by an independent writer from a content model: v1 (BAT in sectors, also at sector "
